@@ -339,6 +339,9 @@ class PropertyCheck(object):
     def solve(self):
         tmo = THOROUGH_TIMEOUT_MS if self.tier == 'thorough' else QUICK_TIMEOUT_MS
         discharge_all(self.items, tmo, second_opinion=(self.tier == 'thorough'))
+        if not getattr(self, 'canary_mode', False):
+            from .par import _retry_unknown
+            _retry_unknown([it for it in self.items if it.assertions is not None], tmo)
         if self.E is not None and any(it.result == 'unknown' for it in self.items):
             self.refute_ground(self.E, (0, 1, 2) if self.tier == 'quick' else (0, 1, 2, 3))
         unk = [it for it in self.items if it.result == 'unknown']
